@@ -277,8 +277,8 @@ func runC11(c *core.Ctx) error {
 		b := map[bool]string{true: "TRUE", false: "FALSE"}
 		return []byte(fmt.Sprintf("SPECIFICATION Spec\nCONSTANTS\n  Procs = {1, 2}\n  OpsC = "+ops+"\n  ContentsC = %s\n  MaxProg = 2\n  Buffers = {\"b1\",\"b2\",\"b3\",\"b4\"}\n  Prechecked = %s\n  Shared = %s\nINVARIANTS NoBufferSharedByTwoProcesses NothingHeldOutsideCalls ResultsAreSequential OnceRunsOnce EmitWork\nCHECK_DEADLOCK FALSE\n", contents, b[pre], b[shared]))
 	}
-	all4 := `{"usesT","orset","rich","big"}`
-	own := `{"usesT","orset"}` // own objects: the quick tier explores two contents (the product of contents squares the state space)
+	all4 := `{"usesT","orset","rich","big","esckeys"}`
+	own := `{"usesT","orset","esckeys"}` // own objects: the quick tier explores two contents (the product of contents squares the state space)
 	if c.Thorough() {
 		own = all4
 	}
